@@ -166,6 +166,33 @@ CHECKS = {
              "lock-free ring under the buffered channel is C07's subject; tags handed to send are distinct; select() is not covered",
         technique="Lean 4 invariants over a specification automaton (refinement at API level) + deterministic simulation of the real runtime",
         design="§5 C09"),
+    "C10": dict(
+        text="Lean 4 theorems about (A) a specification automaton for connected socket streams that every single-vCPU history of ISocketStream "
+             "calls and returns (read/readv/write/writev = full-count kinds, recv/send = at-most kinds, with count, errno, the stream offset and "
+             "the byte-for-byte verdict of what a read returned), timeout settings, shutdowns, closes, clock ticks and quiescence points must be "
+             "accepted by: by induction over all accepted histories the deliveries of every stream are consecutive pieces of the writer's byte "
+             "sequence ending at the read position (in order, exactly once, nothing skipped); an accepted read delivers exactly the next bytes and "
+             "never more than was written; write()/read() return the full count unless the stream ended (then exactly the remaining bytes); "
+             "recv()/send() move at least one byte unless end of stream; a failure is ETIMEDOUT only at or after the call's deadline or another "
+             "error only with the peer shut/closed; a quiescence point is accepted only if no call is blocked past its deadline and no blocked "
+             "reader has its bytes / end of stream available nor is a writer blocked together with its stream's reader (lost readiness event); "
+             "(B) doio_loop with BufStep/BufStepV as a pure function: every transfer is asked for exactly the not yet transferred suffix of the "
+             "flat byte sequence for any segmentation incl. zero-length iovecs, a view never starts with an empty element after a transfer, result "
+             "bounds, short result only at end of stream. Tied to the code by (A) generated programs on real photon streams over real Unix-domain "
+             "and loopback-TCP sockets (plain and ET) with the real epoll and epoll-ng engines under a virtual clock - paces forcing EAGAIN on "
+             "either side, both directions of a descriptor at once, up to 22 connections on one engine, timeouts shorter than the peer's pauses, "
+             "shutdown at arbitrary offsets - and (B) the real doio_loop template on scripted transfer results compared request by request",
+        note="trusted: Lean kernel + 3 standard axioms; the KERNEL (socket buffers, epoll, loopback TCP) is real and trusted, not modelled - the "
+             "automaton specifies the stream at the API; one vCPU; virtual time advances only when the kernel has nothing under way (for TCP the "
+             "harness waits up to 0.5 s of real time while queues/ioctl show data, window updates or FINs in flight), so 'timeout while data is in "
+             "flight' means in flight in the peer's pauses, not inside the kernel; a spurious wake-up of the wrong thread is invisible at the API "
+             "(the woken call retries and blocks again) and is NOT checked - only lost events (stuck at quiescence), wrong results and overdue "
+             "calls are; the interest bookkeeping of io/epoll.cpp (_inflight_events, one-shot re-arming) has no model of its own: it is covered "
+             "through its externally visible effect only; after a failed full-count call the stream position is unknown and the stream is "
+             "excluded from the data clauses; io_uring and select engines, TLS, zero-copy send, sendfile, connect/accept timeouts are not covered",
+        technique="Lean 4 invariants over a specification automaton + pure transfer-loop model; deterministic simulation of the real runtime over real "
+                  "kernel sockets + functional correspondence of the transfer loop",
+        design="§5 C10"),
     "C11": dict(
         text="Lean 4 theorems about a specification automaton for the RPC stub that every single-vCPU history of do_call calls/returns, "
              "request writes (with the allocated tag), header reads, body reads (with the caller-owned buffer they go into), reader "
@@ -276,7 +303,8 @@ CHECKS = {
              "compared with the source function",
         note="trusted: Lean kernel + 3 standard axioms; the step from the abstract store to store.cpp (range lock, async refill through the "
              "thread pool, re-read of the remainder, fiemap vs in-memory range map, pool LRU / quota / reuse scan) is covered only by the "
-             "simulation runs on ONE vCPU, not by a theorem; eviction by quota/capacity, re-use of a cache directory by a new pool, range "
+             "simulation runs on ONE vCPU, not by a theorem; re-use of the cache directory by a new pool is exercised (reopen; media on tmpfs = "
+             "no fiemap, or under the scratch directory); eviction by quota/capacity, range "
              "punching (ICacheStore::evict(offset, len); its entry point is not exported from libphoton.so) and the OCF / memory / persistent "
              "cache variants are not exercised; the model's removeRange walks the whole list (the C++ stops early on the sorted map) - equal on "
              "sorted maps, which the correspondence compares",
